@@ -125,7 +125,7 @@ func ZZ_C10_IngressLines() {
 		be := &netv1.IngressServiceBackend{Name: "svc"}
 		var bnum int32
 		bname := ""
-		switch vf_Choose("be.port", 3) {
+		switch vf_Choose("be.port", 4) {
 		case 0:
 			bnum = zzPortVar("be.num")
 			be.Port.Number = bnum
@@ -139,6 +139,9 @@ func ZZ_C10_IngressLines() {
 			vf_Known("C10-ingress-number-matches-targetport", k)
 		case 1:
 			bname = "web"
+			be.Port.Name = bname
+		case 2: // the name of a *targetPort*, not of a service port
+			bname = "http"
 			be.Port.Name = bname
 		default:
 			bname = "nosuch"
